@@ -7,6 +7,7 @@ from sys import maxsize
 from ECAgent.Core import Model
 from enum import IntEnum
 from functools import partial
+from numbers import Integral
 from typing import (
     Any,
     Callable,
@@ -377,6 +378,10 @@ def _score_model_for_search(records: Iterable[float], mode: ScoreMode) -> float:
     ValueError
         If invalid ``ScoreMode`` value is used.
     """
+    # Fixed-width integer scores (e.g. numpy.int64 from numpy.sum) would make statistics.mean / variance truncate their
+    # result back to that integer type and let sum() wrap around, so they are aggregated as plain Python ints.
+    records = [int(r) if isinstance(r, Integral) and type(r) is not int else r for r in records]
+
     if mode == ScoreMode.MIN:
         return min(records)
     elif mode == ScoreMode.MAX:
